@@ -115,11 +115,19 @@ Init ==
   /\ impl = LRootView(root.shape, root.first)
   /\ path = <<>>
 
+(* The receiver of an operation can be an lvalue, a const lvalue or a temporary; the library has one  *)
+(* overload per value category for nearly every operation (X.op() &, X.op() const&, X.op() &&) and   *)
+(* the requirement is the same for all three: the value category never changes which elements are   *)
+(* designated.  Recvs is overridden in a cfg (Recvs <- RecvsAll) by the runs that enumerate it.        *)
+Recvs    == {"lv"}
+RecvsAll == {"lv", "const", "rv"}
+RecvsCR  == {"const", "rv"}
+
 Step(o) ==
   /\ Enabled(o)
   /\ abs'  = ApplyF(abs, o)
   /\ impl' = LApply(impl, o, OneDimQuirk)
-  /\ path' = Append(path, o)
+  /\ \E r \in Recvs : path' = Append(path, [op |-> o.op, args |-> o.args, recv |-> r])
   /\ UNCHANGED root
 
 Next == Len(path) < MaxDepth /\ \E o \in Candidates(abs) : Step(o)
